@@ -92,6 +92,18 @@ func nameOf(cls string) string {
 		return "abc"
 	case "len64":
 		return strings.Repeat("n", 64)
+	case "digits":
+		return "12345"
+	case "kwsequences":
+		return host.KeySequencePrefix
+	case "kwcommitments":
+		return host.KeyPacketCommitmentPrefix
+	case "kwreceipts":
+		return host.KeyPacketReceiptPrefix
+	case "kwacks":
+		return host.KeyPacketAckPrefix
+	case "kwnextseq":
+		return host.KeyNextSeqSendPrefix
 	}
 	return cls
 }
